@@ -410,5 +410,48 @@ def run_rekey(P, rep):
                        ('%s: the interval ring is searched by picture number and %s can re-key it' % (desc, rk[0])) if rk else
                        ('%s: rate_control_kernel searches the %d-entry interval ring by picture number, but no call that re-keys the ring (%s) is reachable in this configuration: after one lap of the ring no interval matches, the kernel reports "No RC interval found" and the stream stops' %
                         (desc, 256, ', '.join(sorted(g.name for g in rekey_fns)))))
+    # span of an interval: wherever the upper key is rebuilt from the lower one (`last = first + X`) next to a re-keying store, X equals
+    # the span the ring was initialised with (evaluated for two sample periods; undecidable forms are left alone)
+    from rules.C20 import _ev as _pev
+    lo = [k for k in keys if 'first' in k]
+    hi = [k for k in keys if 'last' in k]
+    spans_init = {}
+    if lo and hi:
+        for g in P.fns:
+            if g.lib != 'Encoder' or g.nocfg or g in rekey_fns:
+                continue
+            st_lo = [ev for ev in g.events(('st',)) if ev['e'][0] == 'a' and ev['e'][1] == '=' and strip(ev['e'][2])[0] == 'm' and strip(ev['e'][2])[1] == lo[0]]
+            st_hi = [ev for ev in g.events(('st',)) if ev['e'][0] == 'a' and ev['e'][1] == '=' and strip(ev['e'][2])[0] == 'm' and strip(ev['e'][2])[1] == hi[0]]
+            if st_lo and st_hi and any(k == 'for' for k, c, l in g.ctl_chain(st_lo[0])):
+                for per in (3, 31):
+                    loc = {'interval_index': 2, 'intra_period': per}
+                    env2 = {'SequenceControlSet.intra_period_length': per}
+                    a = _pev(st_lo[0]['e'][3], env2, loc)
+                    b = _pev(st_hi[0]['e'][3], env2, loc)
+                    if a is not None and b is not None:
+                        spans_init[per] = b - a
+        for g in rekey_fns:
+            for ev in g.events(('st',)):
+                e = ev['e']
+                if e[0] != 'a' or e[1] != '=' or strip(e[2])[0] != 'm' or strip(e[2])[1] != hi[0]:
+                    continue
+                r = strip(e[3])
+                if r is None or r[0] != 'b' or r[1] != '+' or strip(r[2]) is None or strip(r[2])[0] != 'm' or strip(r[2])[1] != lo[0]:
+                    continue
+                # only next to a re-keying store (same control context)
+                if not any(sv['e'][0] == 'a' and sv['e'][1] == '+=' and strip(sv['e'][2])[0] == 'm' and strip(sv['e'][2])[1] == lo[0] and g.ctl_chain(sv) == g.ctl_chain(ev) for sv in g.events(('st',))):
+                    continue
+                probs = []
+                for per, L in sorted(spans_init.items()):
+                    env2 = {'SequenceControlSet.intra_period_length': per}
+                    ins2, tr2 = sccp(g, env2)
+                    stt = dict(g.state_at(ins2, tr2, ev) or ())
+                    x = _pev(r[3], env2, stt)
+                    if x is not None and x != L:
+                        probs.append('period %d: rebuilt span %d, initial span %d' % (per, x, L))
+                rep.ob('C22.REKEY', '%s/span@%d' % (g.name, ev['l']), not probs, g.loc(ev),
+                       'the rebuilt interval keeps the span the ring was initialised with' if not probs else
+                       ('%s rebuilds %s from %s with another span than the ring was initialised with (%s): the moved interval overlaps its neighbour, a picture is attributed to two GOP intervals and the bookkeeping that moves intervals ahead stops working' %
+                        (g.name, hi[0].split('.')[1], lo[0].split('.')[1], '; '.join(probs))))
     rep.analysed['rekey_configurations'] = n
     rep.floor('C22.REKEY', 4)
